@@ -565,6 +565,8 @@ def cases(rng, tier):
             for i in range(len(base) + 1):
                 t = base[:i] + hst + base[i:]
                 out.append(tcase("dest.example", None, [list(PH[0]), [t, "v1"] if field == "name" else ["X-P", t]]))
+    for h in (":1#frag", "?q", "#f", "/p", "@", ":", ":8443", "u@", "u:p@:1"):
+        out.append(tcase(h, None, []))          # no host left once the URL is split
     for hs in ([], [["Host", "other.example"]], [["host", "x"], ["X-P", "v"]], [["", "v"]], [["X-P", ""]], [["X-P", "\u00e9"]], [["X-P", "\u20ac"]], [["X-\u00e9", "v"]]):
         out.append(tcase("dest.example", None, hs))
         out.append(tcase("dest.example", 8443, hs))
